@@ -362,6 +362,18 @@ ASTNode *PrimaryExpressionParser::parsePrimary() {
             int depth = 1;
             bool is_function_call = false;
             while (depth > 0 && !parser_->isAtEnd()) {
+                // 型引数リストに現れ得ないトークンに達したら、'<' は比較演算子
+                if (parser_->check(TokenType::TOK_SEMICOLON) ||
+                    parser_->check(TokenType::TOK_LBRACE) ||
+                    parser_->check(TokenType::TOK_RBRACE) ||
+                    parser_->check(TokenType::TOK_LPAREN) ||
+                    parser_->check(TokenType::TOK_RPAREN) ||
+                    parser_->check(TokenType::TOK_AND) ||
+                    parser_->check(TokenType::TOK_OR) ||
+                    parser_->check(TokenType::TOK_QUESTION) ||
+                    parser_->check(TokenType::TOK_ASSIGN)) {
+                    break;
+                }
                 if (parser_->check(TokenType::TOK_LT)) {
                     depth++;
                 } else if (parser_->check(TokenType::TOK_GT)) {
